@@ -395,15 +395,18 @@ class Fixture:
         try:
             if fmt == 'v1':
                 fn = os.path.join(self.tmp, '1200000000.h5')
-                self.st, _, ts = cf.write_v1(fn, [tuple(s) for s in spec['scans']], F=F, dt=dt, grid4=grid4, hist=hist)
+                self.st, wprods, ts = cf.write_v1(fn, [tuple(s) for s in spec['scans']], F=F, dt=dt, grid4=grid4, hist=hist)
                 self.d = katdal.open(fn, time_offset=off)
                 self.segs = [s[4] for s in spec['scans']]
                 self.stored_ts = list(ts)
+                # DBE input strings '<k><x|y>' of antenna k + 1, polarisation H | V (the attributes written per antenna)
+                dbe = lambda t: 'ant%d%s' % (int(t[0]) + 1, 'h' if t[1] == 'x' else 'v')      # noqa: E731
+                wprods = [(dbe(p[:2]), dbe(p[2:])) for p in wprods]
                 ant0 = 'ant1'
             elif fmt == 'v2':
                 ants = ('ant1', 'ant2', 'ant3')[:spec['nants']]
                 fn = os.path.join(self.tmp, '1300000000.h5')
-                self.st, _, ts = cf.write_v2(fn, T=T, F=F, ants=ants, dt=dt, acts=spec['acts'], targets=spec['targets'],
+                self.st, wprods, ts = cf.write_v2(fn, T=T, F=F, ants=ants, dt=dt, acts=spec['acts'], targets=spec['targets'],
                                              labels=spec['labels'], dup_last=self.dup, grid4=grid4, hist=hist,
                                              old=bool(spec.get('old')), centre=spec.get('centre', 1822e6))
                 self.d = katdal.open(fn, time_offset=off, keepdims=spec['keepdims'])
@@ -419,7 +422,7 @@ class Fixture:
                                 bandwidth=856e6 if spec['lower'] else 856e6 / 4096 * F,
                                 centre_param=428e6 if spec['lower'] else 1284e6)
                     self.spec = spec
-                self.st, _, ts = cf.write_v3(fn, T=T, F=F, ants=ants, dt=dt, acts=spec['acts'], targets=spec['targets'],
+                self.st, wprods, ts = cf.write_v3(fn, T=T, F=F, ants=ants, dt=dt, acts=spec['acts'], targets=spec['targets'],
                                              labels=spec['labels'], dup_last=self.dup, centroid=self.centroid,
                                              lower=spec['lower'], cbf_dt=self.cbf_dump, grid4=grid4, hist=hist,
                                              bandwidth=spec['bandwidth'], l0_centre=spec['l0_centre'])
@@ -474,6 +477,7 @@ class Fixture:
                 self.stored_T, self.stored_F = T, F
                 T, F = b - a, dd - c
                 self.stored_ts = [V4_SYNC + V4_FIRST + k * dt + off for k in range(a, b)]
+                wprods = bls
                 v4_freqs = [V4_CENTRE + (k - self.stored_F // 2) * V4_CW for k in range(c, dd)]
                 ant0 = 'm000'
             self.file = getattr(self.d, 'file', None)
@@ -497,6 +501,8 @@ class Fixture:
             self.T, self.F = T, F
             self.cps_full = [(str(a), str(b)) for a, b in d.subarrays[0].corr_products]
             self.B = len(self.cps_full)
+            # the product axis as WRITTEN (position b of the stored arrays belongs to stored_cps[b])
+            self.stored_cps = [(str(a), str(b)) for a, b in wprods]
             # v1 / v2 / v3: the channel frequencies of the (single, whole) spectral window; v4: the documented
             # frequencies of the stored channels the data set was opened on
             self.chan_freqs = np.array(v4_freqs if fmt == 'v4' else d.spectral_windows[0].channel_freqs)
@@ -533,10 +539,14 @@ class Fixture:
         """v1 / v2 / v3: the model's spectral window (translated constructor calls) and the documented axis of the stored
         attributes; from now on `chan_freqs` (the oracle of every freqs comparison) and the sideband given to the model
         of the history come from there, not from the data set."""
-        if self.fmt == 'v4' or self.axis is not None:
+        if self.axis is not None:
             return
-        out = ctx.model([self.axis_case])[0]
+        if self.fmt == 'v4':
+            self.axis = True
+            return self.check_products(ctx, dict(hid=dict(kind='axis'), spec=self.spec, fail_at=0, ops=['open']))
         case = dict(hid=dict(kind='axis'), spec=self.spec, fail_at=0, ops=['open'])
+        self.check_products(ctx, case)
+        out = ctx.model([self.axis_case])[0]
         if not out:
             ctx.disagree('fmt=%s;attr=freqs;what=model_builds_no_window' % self.fmt, case, None, None,
                          'the model of the reader builds no spectral window for these attributes', kind='tie')
@@ -565,6 +575,16 @@ class Fixture:
                 'channel frequencies / sideband of the spectral window are not the documented ones of the stored '
                 'attributes (centre, bandwidth, band, version, L0 attribute, centre_freq argument)',
                 spec=[float(x) for x in self.axis['spec'][:6]])
+
+    def check_products(self, ctx, case):
+        """corr_products of the subarray must be the stored ordering: position b of the stored arrays is the product the
+        file / telstate lists at position b (C01_labels then says corr_products[l] = that list at cp_idx[l])."""
+        ctx.count('products_checked=' + self.fmt)
+        if self.cps_full != self.stored_cps:
+            what = 'permuted' if sorted(self.cps_full) == sorted(self.stored_cps) else 'differs'
+            ctx.disagree('fmt=%s;attr=subarray.corr_products;what=%s' % (self.fmt, what), case, self.cps_full[:6],
+                         self.stored_cps[:6], 'the correlation products of the data set are not the stored product '
+                         'ordering (the labels of the third axis of the stored arrays)', spec=self.stored_cps[:6])
 
     def model_case(self, atoms, ops):
         """The wire case of one history: wire_1 (v1 / v2 / v3: cfg + operations); wire_1002 (v4: what is STORED -- shape
